@@ -423,7 +423,9 @@ pub fn gen_hint_overflow_zone(rng: &mut Rng) -> ZoneCfg {
             _ => t.clone(),
         };
         recs.push(Rec { owner: apex.clone(), ty, ttl: 300, rdata: rd });
-        let n_a = if i >= n_plain { rng.range(1, 24) } else { 1 };
+        // the first late target often has an address RRset too big to fit (it is dropped), the
+        // following ones small ones (they fit and are compressed against what came before)
+        let n_a = if i == n_plain { rng.range(4, 24) } else if i > n_plain { if rng.chance(3, 4) { 1 } else { rng.range(1, 24) } } else { 1 };
         for k in 0..n_a { recs.push(Rec { owner: t.clone(), ty: 1, ttl: 60, rdata: vec![10, i as u8, k as u8, rng.byte()] }); }
         if rng.chance(1, 4) { recs.push(Rec { owner: t.clone(), ty: 28, ttl: 60, rdata: (0..16).map(|_| rng.byte()).collect() }); }
     }
